@@ -112,6 +112,15 @@ func codecRule(c *Ctx, rule string) {
 						}
 					}
 				})
+			case strings.HasPrefix(m, "AppendUint"):
+				s.put = true
+				buf := args[len(args)-2]
+				if prefixedEmpty(c, buf) {
+					s.kind = "value"
+					s.off = prefixLen
+				} else {
+					return // appends to other byte strings (e.g. hashing input of cache keys) are not on-disk records
+				}
 			case strings.HasPrefix(m, "Uint"):
 				x := args[len(args)-1]
 				src := x
